@@ -17,7 +17,7 @@ DOMAINS = {
     "p01": {"letter": "P", "header_tokens": 4}, "p02": {"letter": "P", "header_tokens": 4}, "p05": {"letter": "P", "header_tokens": 4},
     "p04": {"letter": "P", "header_tokens": 4}, "roundtrip": {"letter": "Y", "header_tokens": 9}, "p17": {"letter": "P", "header_tokens": 4},
     "errstr": {"letter": "E", "header_tokens": 5}, "buffmt": {"letter": "F", "header_tokens": 9}, "expr": {"letter": "X", "header_tokens": 4},
-    "p06": {"letter": "P", "header_tokens": 4}, "p08": {"letter": "P8", "header_tokens": 4}, "p09": {"letter": "P9", "header_tokens": 4},
+    "p06": {"letter": "P", "header_tokens": 4}, "p08": {"letter": "P8", "header_tokens": 4}, "p09": {"letter": "P9", "header_tokens": 4}, "p09u": {"letter": "PU", "header_tokens": 4},
 }
 
 PROPS = {
@@ -109,7 +109,7 @@ PROPS["C06"] = _pprop("ScpiVerif.Props.C06", [{"name": "p06", "cfgs": ["A"], "ke
     "messages of 1..6 units mixing commands and queries whose scripts emit 0..4 items of every result type and succeed or fail, one or two messages per context; judged: bytes written and flush count per SCPI_Input call against frame() over independently encoded items")
 PROPS["C08"] = _pprop("ScpiVerif.Props.C08", [{"name": "p08", "cfgs": ["A"]}], ["C08."],
     "streams of 1..4 messages (well-formed, with malformed fragments, blocks with embedded terminators, quoted strings, empty units) fed all at once / in two pieces / in random pieces of up to 9 bytes, each compared with byte-at-a-time feeding of the same stream on a second context")
-PROPS["C09"] = _pprop("ScpiVerif.Props.C09", [{"name": "p09", "cfgs": ["A"]}], ["C09."],
+PROPS["C09"] = _pprop("ScpiVerif.Props.C09", [{"name": "p09", "cfgs": ["A"]}, {"name": "p09u", "cfgs": ["A"]}], ["C09."],
     "1..3 messages A (including failing ones, unfinished blocks, unterminated tails) then a message B; B on the used context is compared with B on a fresh context that was given the same registers and error queue")
 PROPS["C05"] = _pprop("ScpiVerif.Props.C05", [{"name": "p05", "cfgs": ["A"], "keep": "P,H,I,L,B,C,N,Y,X,A,E"}], ["C05."],
     "units pairing every typed reader (mandatory / optional, one to three readers, arrays, stop-on-failure) with parameter lists of 0..4 items of every data type, with white space around commas and malformed fragments")
